@@ -440,7 +440,7 @@ impl Session {
             self.wrun_idle(k);
             return "ok";
         }
-        let deadline = Instant::now() + Duration::from_secs(60);
+        let deadline = Instant::now() + Duration::from_secs(20);
         loop {
             let st = gate::wstate(&w).unwrap_or_default();
             if st.exited {
@@ -456,9 +456,20 @@ impl Session {
         }
     }
 
+    /// Execute one script step.  A panic that escapes the step's own handling (a public operation that is
+    /// not individually wrapped) is reported as an `hp` event and the instance is abandoned.
     pub fn exec(&mut self, step: &Value) {
-        let a = step["a"].as_str().unwrap_or("");
         ev(json!({"e": "step", "step": step}));
+        let r = catch_unwind(AssertUnwindSafe(|| self.exec_inner(step)));
+        if let Err(p) = r {
+            let a = step["a"].as_str().unwrap_or("").to_string();
+            ev(json!({"e": "hp", "op": a, "res": format!("panic:{}", panic_msg(p))}));
+            let _ = catch_unwind(AssertUnwindSafe(|| self.abandon()));
+        }
+    }
+
+    fn exec_inner(&mut self, step: &Value) {
+        let a = step["a"].as_str().unwrap_or("");
         match a {
             "open" => {
                 let cfg = Cfg::from_json(&step["cfg"]);
@@ -625,8 +636,12 @@ impl Session {
             "wait_cb" => {
                 let fids: Vec<u64> = self.flushes.clone();
                 let mut out = vec![];
+                // one budget for the whole step: a worker that died without dropping its callbacks
+                // must not stall the run for a full timeout per flush
+                let t0 = Instant::now();
                 for f in fids {
-                    let r = wait_cb(f, Duration::from_secs(60));
+                    let left = Duration::from_secs(20).saturating_sub(t0.elapsed());
+                    let r = wait_cb(f, left.max(Duration::from_millis(1)));
                     out.push(json!([f, match r { Some(true) => "ok", Some(false) => "err", None => "timeout" }]));
                 }
                 ev(json!({"e": "waitcb", "res": out}));
